@@ -328,7 +328,7 @@ impl<S: USet> Eng<S> {
             self.fail("C01,C02", format!("{}: is_empty() = {} with {} members", what, emp, olen));
         }
         let block = if heap { S::HEADER + S::ELEM * cap } else { 0 };
-        if mem != 8 + block {
+        if !S::TYPED && mem != 8 + block {
             self.fail("C11", format!("{}: mem_used() = {} but the set owns {} heap bytes + 8", what, mem, block));
         }
         if olen > self.hw[i] {
@@ -379,7 +379,12 @@ impl<S: USet> Eng<S> {
                 self.hw[i] = 0;
                 self.hinted[i] = true;
                 let rp = self.repr(i);
-                self.emit(&format!("wcb {} {} {}{} R {}", i, cap, bits, d, rp));
+                if S::TYPED {
+                    self.emit(&format!("new {}", i));
+                    self.hinted[i] = false;
+                } else {
+                    self.emit(&format!("wcb {} {} {}{} R {}", i, cap, bits, d, rp));
+                }
                 self.bump("op:wcb");
                 self.check_set(i, "with_capacity_and_bits");
             }
@@ -399,7 +404,12 @@ impl<S: USet> Eng<S> {
                 self.hw[i] = 0;
                 self.hinted[i] = true;
                 let rp = self.repr(i);
-                self.emit(&format!("wcm {} {} {}{} R {}", i, cap, mx, d, rp));
+                if S::TYPED {
+                    self.emit(&format!("new {}", i));
+                    self.hinted[i] = false;
+                } else {
+                    self.emit(&format!("wcm {} {} {}{} R {}", i, cap, mx, d, rp));
+                }
                 self.bump("op:wcm");
                 self.check_set(i, "with_capacity_and_max");
             }
@@ -408,7 +418,7 @@ impl<S: USet> Eng<S> {
         self.post_check();
     }
     pub fn op_wco(&mut self, i: usize, j: usize) {
-        if i == j || self.slots[j].is_none() {
+        if i == j || self.slots[j].is_none() || !S::HAS_OWN_OPS {
             return;
         }
         self.slots[i] = None;
@@ -468,9 +478,13 @@ impl<S: USet> Eng<S> {
                 self.hw[i] = self.oracle[i].len();
                 self.hinted[i] = false;
                 let rp = self.repr(i);
-                let mut l = format!("col {} {}", i, v.len());
+                if S::TYPED {
+                    // Set64 / SetUsize collect by inserting one at a time into a new set
+                    self.emit(&format!("new {}", i));
+                }
+                let mut l = format!("{} {} {}", if S::TYPED { "ext" } else { "col" }, i, v.len());
                 for x in v {
-                    write!(l, " {}", x).unwrap();
+                    write!(l, " {}", S::enc(*x)).unwrap();
                 }
                 self.emit(&format!("{}{} R {}", l, d, rp));
                 self.bump(&format!("op:col>{}", self.tag(i)));
@@ -498,7 +512,7 @@ impl<S: USet> Eng<S> {
                 let rp = self.repr(i);
                 let mut l = format!("ext {} {}", i, v.len());
                 for x in v {
-                    write!(l, " {}", x).unwrap();
+                    write!(l, " {}", S::enc(*x)).unwrap();
                 }
                 self.emit(&format!("{}{} R {}", l, d, rp));
                 self.bump("op:ext");
@@ -525,7 +539,7 @@ impl<S: USet> Eng<S> {
 
     // ---------------------------------------------------------------- core ops
     pub fn op_ins(&mut self, i: usize, v: u64) {
-        let v = v & S::max_elem();
+        let v = S::norm(v);
         let before = self.tag(i);
         let pushed = self.script(i);
         let r = catch_unwind(AssertUnwindSafe(|| alloc::under_test(|| self.slots[i].as_mut().unwrap().ins(v))));
@@ -534,13 +548,13 @@ impl<S: USet> Eng<S> {
         let rp = self.repr(i);
         match r {
             Ok(b) => {
-                self.emit(&format!("ins {} {} {}{} R {}", i, v, b as u8, d, rp));
+                self.emit(&format!("ins {} {} {}{} R {}", i, S::enc(v), b as u8, d, rp));
                 if b != want {
                     self.fail("C01,C02", format!("insert({}) returned {} but the value was {}", v, b, if want { "absent" } else { "present" }));
                 }
             }
             Err(_) => {
-                self.emit(&format!("ins {} {} P{} R {}", i, v, d, rp));
+                self.emit(&format!("ins {} {} P{} R {}", i, S::enc(v), d, rp));
                 self.fail("C01,C02,C20", format!("insert({}) panicked", v));
             }
         }
@@ -553,7 +567,7 @@ impl<S: USet> Eng<S> {
         self.post_check();
     }
     pub fn op_rem(&mut self, i: usize, v: u64) {
-        let v = v & S::max_elem();
+        let v = S::norm(v);
         let before = self.tag(i);
         let pushed = self.script(i);
         let r = catch_unwind(AssertUnwindSafe(|| alloc::under_test(|| self.slots[i].as_mut().unwrap().rem(v))));
@@ -562,13 +576,13 @@ impl<S: USet> Eng<S> {
         let rp = self.repr(i);
         match r {
             Ok(b) => {
-                self.emit(&format!("rem {} {} {}{} R {}", i, v, b as u8, d, rp));
+                self.emit(&format!("rem {} {} {}{} R {}", i, S::enc(v), b as u8, d, rp));
                 if b != want {
                     self.fail("C01,C02", format!("remove({}) returned {} but the value was {}", v, b, if want { "present" } else { "absent" }));
                 }
             }
             Err(_) => {
-                self.emit(&format!("rem {} {} P{} R {}", i, v, d, rp));
+                self.emit(&format!("rem {} {} P{} R {}", i, S::enc(v), d, rp));
                 self.fail("C01,C02", format!("remove({}) panicked", v));
             }
         }
@@ -581,11 +595,11 @@ impl<S: USet> Eng<S> {
         self.post_check();
     }
     pub fn op_con(&mut self, i: usize, v: u64) {
-        let v = v & S::max_elem();
+        let v = S::norm(v);
         let before = self.repr(i);
         let b = alloc::under_test(|| self.slots[i].as_ref().unwrap().con(v));
         let want = self.oracle[i].contains(&v);
-        self.emit(&format!("con {} {} {}", i, v, b as u8));
+        self.emit(&format!("con {} {} {}", i, S::enc(v), b as u8));
         if b != want {
             self.fail("C01,C02", format!("contains({}) = {} but the value is {}", v, b, if want { "present" } else { "absent" }));
         }
@@ -601,8 +615,10 @@ impl<S: USet> Eng<S> {
             (s.len(), s.capacity(), s.mem_used())
         };
         self.emit(&format!("len {} {}", i, l));
-        self.emit(&format!("cap {} {}", i, c));
-        self.emit(&format!("mem {} {}", i, m));
+        if !S::TYPED {
+            self.emit(&format!("cap {} {}", i, c));
+            self.emit(&format!("mem {} {}", i, m));
+        }
         if self.repr(i) != before {
             self.fail("C18", "len/capacity/mem_used changed the representation".into());
         }
@@ -615,7 +631,7 @@ impl<S: USet> Eng<S> {
         let items = detach(alloc::under_test(|| self.slots[i].as_ref().unwrap().items()));
         let mut l = format!("iter {} {}", i, items.len());
         for x in &items {
-            write!(l, " {}", x).unwrap();
+            write!(l, " {}", S::enc(*x)).unwrap();
         }
         self.emit(&l);
         if self.repr(i) != before {
@@ -633,7 +649,7 @@ impl<S: USet> Eng<S> {
         let (v, fused) = detach(alloc::under_test(|| self.slots[i].as_ref().unwrap().nexts(which, pos)));
         let mut l = format!("nexts {} {} {}", i, pos, v.len());
         for x in &v {
-            write!(l, " {}", x).unwrap();
+            write!(l, " {}", S::enc(*x)).unwrap();
         }
         self.emit(&l);
         if !fused {
@@ -653,14 +669,17 @@ impl<S: USet> Eng<S> {
         let all = self.slots[i].as_ref().unwrap().items();
         let rest: Vec<u64> = all.iter().skip(pos).cloned().collect();
         let want = match kind {
-            "min" => rest.iter().cloned().min(),
-            "max" => rest.iter().cloned().max(),
+            "min" => S::pick(&rest, false),
+            "max" => S::pick(&rest, true),
             "last" => rest.last().cloned(),
             _ => Some(rest.len() as u64),
         };
         match r {
             Ok(got) => {
-                self.emit(&format!("sc {} {} {} {}", i, pos, kind, got.map(|x| x.to_string()).unwrap_or("none".into())));
+                let shown = got.map(|x| if kind == "last" || kind == "min" || kind == "max" { S::enc(x) } else { x });
+                if !(S::TYPED && (kind == "min" || kind == "max")) {
+                    self.emit(&format!("sc {} {} {} {}", i, pos, kind, shown.map(|x| x.to_string()).unwrap_or("none".into())));
+                }
                 if got != want {
                     self.fail("C13", format!("{:?} iterator after {} next(): {}() = {:?}, by plain iteration {:?}", which, pos, kind, got, want));
                 }
@@ -691,7 +710,7 @@ impl<S: USet> Eng<S> {
         if partial.is_none() {
             let mut l = format!("drain {} {}", i, r.len());
             for x in &r {
-                write!(l, " {}", x).unwrap();
+                write!(l, " {}", S::enc(*x)).unwrap();
             }
             let rp = self.repr(i);
             self.emit(&format!("{} R {}", l, rp));
@@ -715,7 +734,18 @@ impl<S: USet> Eng<S> {
             (a == b, b == a)
         };
         let want = self.oracle[i] == self.oracle[j];
-        self.emit(&format!("eq {} {} {}", i, j, b1 as u8));
+        self.emit(&format!("{} {} {} {}", if S::HAS_OWN_OPS { "eq" } else { "eq64" }, i, j, b1 as u8));
+        if let (Some(h1), Some(h2)) = (self.slots[i].as_ref().unwrap().hash_words(), self.slots[j].as_ref().unwrap().hash_words()) {
+            let mut l = format!("hash {} {}", i, h1.len());
+            for x in &h1 {
+                write!(l, " {}", x).unwrap();
+            }
+            self.emit(&l);
+            if want && h1 != h2 {
+                self.fail("C08", "equal sets feed different input to a Hasher".into());
+            }
+            self.bump("op:hash");
+        }
         if b1 != want || b2 != want {
             self.fail("C08", format!("== gives {} / {} (swapped) for sets whose members are {}", b1, b2, if want { "the same" } else { "different" }));
         }
@@ -725,7 +755,7 @@ impl<S: USet> Eng<S> {
         let s = self.slots[i].as_ref().unwrap();
         let d = s.debug_string();
         let want = format!("{} {:?}", S::NAME, s.items());
-        if d != want {
+        if !S::TYPED && d != want {
             self.fail("C08", format!("Debug output {:?} differs from the member list {:?}", d, want));
         }
         self.bump("op:debug");
@@ -735,6 +765,7 @@ impl<S: USet> Eng<S> {
             return;
         }
         self.slots[k] = None;
+        let own = own && S::HAS_OWN_OPS;
         let (bi, bj) = (self.repr(i), self.repr(j));
         let pushed = self.script_n(i, 6000);
         let r = catch_unwind(AssertUnwindSafe(|| {
@@ -758,7 +789,7 @@ impl<S: USet> Eng<S> {
                 self.hw[k] = self.hw[i].max(self.hw[j]).max(self.oracle[k].len());
                 self.hinted[k] = self.hinted[i] || self.hinted[j];
                 let rp = self.repr(k);
-                self.emit(&format!("{} {} {} {} {}{} R {}", name, k, i, j, if own { "own" } else { "ref" }, d, rp));
+                self.emit(&format!("{} {} {} {} {}{} R {}", name, k, i, j, if own { "own" } else if !S::HAS_OWN_OPS && !union { "ref64" } else if !S::HAS_OWN_OPS { "ref64u" } else { "ref" }, d, rp));
                 self.check_set(k, name);
                 self.check_members(k, "C09", if union { "union" } else { "difference" });
                 if self.repr(i) != bi || self.repr(j) != bj {
@@ -852,6 +883,6 @@ impl<S: USet> Eng<S> {
                 _ => self.rng.next(),
             },
         };
-        v & mx
+        S::norm(v & mx)
     }
 }
